@@ -242,13 +242,14 @@ theorem gen_eq_ref (ls : List (List Char)) :
        induction l with
        | nil => intros; first | rfl | (unfold Gen.parseFileLines_loop0 Ref.parseFileLoop; rfl)
        | cons x xs ih =>
-         intros
+         intro db dir label n rc state
          unfold Gen.parseFileLines_loop0 Ref.parseFileLoop
          try simp only [ih]
          all_goals first
            | rfl
            | grind (splits := 80)
            | (simp only [elim_eq_match]; grind (splits := 400) [Sum.elim_inl, Sum.elim_inr])
+           | (cases state <;> simp only [elim_eq_match] <;> grind (splits := 400) [Sum.elim_inl, Sum.elim_inr])
      simp only [Gen.parseFileLines, h]
      done)
   | (have h : ∀ (l : List (List Char)) (db : Db) (dir : Option Dir) (label : Option DbLabel) (n : Nat) (rc : Option RecKind) (state : PState),
@@ -257,13 +258,14 @@ theorem gen_eq_ref (ls : List (List Char)) :
        induction l with
        | nil => intros; first | rfl | (unfold Gen.parseFileLines_loop0 Ref.parseFileLoop; rfl)
        | cons x xs ih =>
-         intros
+         intro db dir label n rc state
          unfold Gen.parseFileLines_loop0 Ref.parseFileLoop
          try simp only [ih]
          all_goals first
            | rfl
            | grind (splits := 80)
            | (simp only [elim_eq_match]; grind (splits := 400) [Sum.elim_inl, Sum.elim_inr])
+           | (cases state <;> simp only [elim_eq_match] <;> grind (splits := 400) [Sum.elim_inl, Sum.elim_inr])
      simp only [Gen.parseFileLines, h, Nat.zero_add]
      done)
 
